@@ -11,6 +11,10 @@ import DlmsVerif.Lemmas.Fields
 import DlmsVerif.Props.C13
 import DlmsVerif.Props.C20
 import DlmsVerif.Lemmas.Hdlc
+import DlmsVerif.Lemmas.CrcFaultDefs
+import DlmsVerif.Lemmas.CrcAlgebra
+import DlmsVerif.Lemmas.HdlcFault
+import DlmsVerif.Spec.Crc
 
 set_option linter.unusedSimpArgs false
 
@@ -194,5 +198,32 @@ theorem C09_appended_refused (crc : Bytes → Bytes) (hcrc : ∀ x, (crc x).leng
     (hs : Spec.Hdlc.serializeWith crc f = some bs) (extra : Bytes) (he : extra ≠ []) :
     ∃ e, Model.Hdlc.parse crc k (bs ++ extra) = .error e := by
   exact Lemmas.Hdlc.appended crc hcrc k f h bs hs extra he
+
+open Lemmas.CrcFaultDefs in
+/-- **the check sequence detects every small error**: for a message of up to 4093 bytes
+    followed by its X-25 check value, any error pattern over message and check value with one
+    to three altered bits, or confined to a burst of 16 bit positions, yields a string whose
+    last two bytes are not the check value of the rest. -/
+theorem C09_crc_detects_small_errors (m e : Bytes) (hl : e.length = m.length + 2)
+    (hlen : 8 * (m.length + 2) ≤ 32767) (hs : SmallError e) :
+    Spec.Crc.fcs ((xorBytes (m ++ Spec.Crc.fcs m) e).take m.length) ≠ (xorBytes (m ++ Spec.Crc.fcs m) e).drop m.length := by
+  exact Lemmas.CrcAlgebra.detects_small_errors m e hl hlen hs
+
+open Lemmas.CrcFaultDefs in
+/-- **corruption never alters content**: a received string of the same length as a valid
+    frame that differs from it by a small error (one to three bits anywhere, or a burst of
+    at most 16 bits) is either refused or - when the error is empty - parsed to the same
+    frame; it is never accepted with different content. -/
+theorem C09_corruption_detected (k : PKind) (f : Frame) (hk : f.kind = k.toKind)
+    (ht : addrTypesOk k f = true) (h : WF f = true) (S : Bytes)
+    (hs : Spec.Hdlc.serializeWith Spec.Crc.fcs f = some S) (X : Bytes) (hl : X.length = S.length)
+    (he : xorBytes X S = List.replicate S.length 0 ∨ SmallError (xorBytes X S)) :
+    (∃ err, Model.Hdlc.parse Spec.Crc.fcs k X = .error err) ∨
+    (∃ p, Model.Hdlc.parse Spec.Crc.fcs k X = .ok p ∧ p.toFrame k = f) := by
+  rcases he with hz | hsmall
+  · have hX : X = S := Lemmas.CrcAlgebra.xorBytes_eq_zero X S hl hz
+    subst hX
+    exact Or.inr (C09_parse_serialize Spec.Crc.fcs (fun _ => rfl) k f hk ht h X hs)
+  · exact Or.inl (Lemmas.HdlcFault.corrupted_refused k f h S hs X hl hsmall)
 
 end Props.C09
